@@ -19,9 +19,12 @@ type stubLimit struct {
 	samples int
 }
 
-func (r *stubLimit) EstimatedLimit() int                                  { return r.est }
-func (r *stubLimit) NotifyOnChange(c core.LimitChangeListener)            {}
-func (r *stubLimit) OnSample(start int64, rtt int64, inflight int, d bool) { r.samples++; r.est = r.next }
+func (r *stubLimit) EstimatedLimit() int                       { return r.est }
+func (r *stubLimit) NotifyOnChange(c core.LimitChangeListener) {}
+func (r *stubLimit) OnSample(start int64, rtt int64, inflight int, d bool) {
+	r.samples++
+	r.est = r.next
+}
 
 // verifC01Limiter: DefaultLimiter over a simple (kind 0) or precise (kind 1) strategy with limit L,
 // `held` tokens outstanding (acquired during setup through the real Acquire), and a sampling window
